@@ -102,6 +102,8 @@ class BaseGopherProtocol:
             self.filenotfound(e.strerror)
 
     def filenotfound(self, msg: str):
+        # The message echoes the selector: keep it one menu field.
+        msg = str(msg).replace("\r", " ").replace("\n", " ").replace("\t", " ")
         self.wfile.write(
             f"3{msg}\t\terror.host\t1\r\n".encode(errors="surrogateescape")
         )
